@@ -369,20 +369,22 @@ fn concretise(o: &Value, n: u64, ids: &[u64], rng: &mut Rng) -> (u64, u64, Vec<u
         }
         _ => (n + rng.below(4), MAX_IDX),
     };
+    let unknown = ids.iter().max().cloned().unwrap_or(0) + 7;
+    let first = ids.first().cloned();
+    let last = ids.last().cloned();
+    let mid = ids.get(ids.len() / 2).cloned();
+    let some = |v: Vec<Option<u64>>| v.into_iter().flatten().collect::<Vec<u64>>();
+    // the lists are written exactly in this order on the command line (ids ascending: first < mid < last)
     let lcs = match o["lcsc"].as_str().unwrap() {
         "none" => vec![],
-        "first" => ids.iter().take(1).cloned().collect(),
-        "last" => ids.iter().rev().take(1).cloned().collect(),
-        "firstlast" => {
-            let mut v: Vec<u64> = ids.iter().take(1).cloned().collect();
-            if let Some(l) = ids.last() {
-                if !v.contains(l) {
-                    v.push(*l);
-                }
-            }
-            v
-        }
-        _ => vec![ids.iter().max().cloned().unwrap_or(0) + 7],
+        "first" => some(vec![first]),
+        "last" => some(vec![last]),
+        "firstlast" => some(vec![first, if last != first { last } else { None }]),
+        "lastfirst" => some(vec![last, if last != first { first } else { None }]),
+        "perm3" => some(vec![mid, first, last]),
+        "dup" => some(vec![last, first, last]),
+        "unknownmixed" => some(vec![Some(unknown), last, first]),
+        _ => vec![unknown],
     };
     (b, e, lcs)
 }
@@ -497,7 +499,21 @@ fn main() {
             if !lcs.is_empty() {
                 args.push(format!("--lcs={}", lcs.iter().map(|x| x.to_string()).collect::<Vec<_>>().join(",")));
             }
-            let eac = o["eac"].as_array().unwrap();
+            // order of the entries of the multi-valued options as written: as listed | reversed | first entry repeated
+            let reorder = |v: &Vec<Value>| -> Vec<Value> {
+                let mut v = v.clone();
+                match o["ord"].as_str().unwrap_or("asc") {
+                    "rev" => v.reverse(),
+                    "dup" => {
+                        if let Some(f) = v.first().cloned() {
+                            v.push(f);
+                        }
+                    }
+                    _ => {}
+                }
+                v
+            };
+            let eac = &reorder(o["eac"].as_array().unwrap());
             if !eac.is_empty() {
                 let ex: Vec<String> = eac
                     .iter()
@@ -510,7 +526,7 @@ fn main() {
                 args.push(format!("--eac={}", ex.join(",")));
             }
             let ffmt = o["f"]["fmt"].as_str().unwrap();
-            let ff = o["f"]["ff"].as_array().unwrap();
+            let ff = &reorder(o["f"]["ff"].as_array().unwrap());
             let mut ffile = None;
             if ffmt != "none" {
                 let p = format!("{}/ff-{}.{}", dir, j, if ffmt == "dlf" { "dlf" } else { "txt" });
@@ -537,7 +553,7 @@ fn main() {
                 args.push(files[0].clone()); // the same file named twice: de-duplicated by the tool
             }
             let hdr = json!({"kind":"sel","set":set,"perm":perm,"argv":args,
-                "opts":{"winc":o["winc"],"lcsc":o["lcsc"],"b":b,"e":e,"lcs":lcs,"eac":eac,"ff":ff,"ffmt":ffmt,"sort":sort,"style":style,"ofile":o["ofile"]}});
+                "opts":{"winc":o["winc"],"lcsc":o["lcsc"],"ord":o["ord"].as_str().unwrap_or("asc"),"b":b,"e":e,"lcs":lcs,"eac":eac,"ff":ff,"ffmt":ffmt,"sort":sort,"style":style,"ofile":o["ofile"]}});
             jobs.push(Job { case, hdr, args, ofile, ffile });
         }
         let next = AtomicUsize::new(0);
